@@ -44,6 +44,23 @@ impl Service<Request<Bytes>> for Leaf {
     }
 }
 
+/// A service that is never ready (a saturated concurrency limit, say). Requests for ITS route
+/// wait; nobody else's may.
+#[derive(Clone)]
+struct Busy;
+
+impl Service<Request<Bytes>> for Busy {
+    type Response = Response<Bytes>;
+    type Error = Infallible;
+    type Future = std::future::Ready<Result<Response<Bytes>, Infallible>>;
+    fn poll_ready(&mut self, _: &mut Context<'_>) -> Poll<Result<(), Infallible>> {
+        Poll::Pending
+    }
+    fn call(&mut self, _req: Request<Bytes>) -> Self::Future {
+        std::future::ready(Ok(Response::new(Bytes::new()).with_header("svc", "busy")))
+    }
+}
+
 macro_rules! rpc_leaf {
     ($name:ident, $svc:expr) => {
         #[derive(Clone)]
@@ -318,6 +335,45 @@ fn run_program(prog: &[Op], max_len: usize, out: &mut UnitResult, unit: &Value) 
     let full_requests = requests(max_len, &table);
     let fork_requests = requests(1, &table);
     let forks = std::mem::take(&mut b.forks);
+    // the same table with one more route whose service is never ready: every other request is
+    // routed as before (readiness of a route concerns that route only)
+    {
+        use tower::ServiceExt;
+        let probe = std::panic::catch_unwind(std::panic::AssertUnwindSafe(|| {
+            let mut r2 = router.clone().route("/never-ready", Busy);
+            let mut bad: Vec<String> = vec![];
+            for route in full_requests.iter().take(12).chain(["/never-ready/x".to_string(), "/zzz".to_string()].iter()) {
+                if route.starts_with("/never-ready") && route.len() == "/never-ready".len() {
+                    continue;
+                }
+                let want_found = !ref_match(&table, route).is_empty();
+                if r2.ready().now_or_never().is_none() {
+                    bad.push(format!("the table is not ready for a request on {route:?} while the service of the unrelated route \"/never-ready\" is busy"));
+                    break;
+                }
+                match r2.call(Request::new(Bytes::new()).with_route(route.clone())).now_or_never() {
+                    None => bad.push(format!("a request on {route:?} waits while the service of the unrelated route \"/never-ready\" is busy")),
+                    Some(Ok(resp)) => {
+                        let found = resp.status() != StatusCode::NotFound;
+                        if found != want_found {
+                            bad.push(format!("with a busy unrelated route in the table, {route:?} was answered {:?}", resp.status()));
+                        }
+                    }
+                    Some(Err(e)) => match e {},
+                }
+            }
+            bad
+        }));
+        out.evaluations += 1;
+        match probe {
+            Ok(bad) => {
+                for m in bad.into_iter().take(1) {
+                    out.violation("waits-for-unrelated-route", m, json!({"unit": unit, "program": pj(), "route": "/never-ready"}));
+                }
+            }
+            Err(p) => out.violation("router-panics", format!("table with a never-ready route panicked: {}", crate::exec::panic_message(&p)), json!({"unit": unit, "program": pj(), "route": "/never-ready"})),
+        }
+    }
     subjects.push((router, table.clone(), full_requests));
     for (fr, ft) in forks {
         subjects.push((fr, ft, fork_requests.clone()));
